@@ -2,5 +2,8 @@ SPECIFICATION Spec
 CONSTANT Reps = {"a", "b", "c", "d"}
 CONSTANT MaxPub = 1000
 CONSTANT MaxActs = 1000
+CONSTANT StartOrder <- OrderAsCoded
+CONSTANT SignPolicy = "strict"
+CONSTANT JoinTrusts = FALSE
 INVARIANT NotDone
 POSTCONDITION Report
